@@ -11,6 +11,7 @@ import (
 	"math/rand"
 	"sort"
 	"strings"
+	"time"
 
 	"github.com/bytom/bytom/config"
 	dbm "github.com/bytom/bytom/database/leveldb"
@@ -26,6 +27,12 @@ type nodeCase struct {
 	ref  *node // reference node: receives every block in creation (parents-first) order
 	sut  *node // node under test
 	maxH uint64
+	implOnly bool
+	// cachedTargets: targets of valid votes that were sent before their target block was stored
+	// (the node parks such votes in its verification cache)
+	cachedTargets map[string]bool
+	// altCoinbase: harness-made blocks pay altCoinbaseProg instead of TRUE (pool mode)
+	altCoinbase bool
 	// oracle bookkeeping
 	finalizedSeq  []string
 	finalEver     map[string]bool         // every checkpoint ever reported as last finalized
@@ -54,7 +61,15 @@ type nodeCase struct {
 	dead          bool
 }
 
-func (nc *nodeCase) emit(op, res string) { nc.c.Op(op, res) }
+// emit hands an event and the node's answer to the model stream. Implementation-only cases
+// (behaviour the Lean model does not have: the verification cache) emit nothing after their
+// reset line; the direct oracles still run after every event.
+func (nc *nodeCase) emit(op, res string) {
+	if nc.implOnly {
+		return
+	}
+	nc.c.Op(op, res)
+}
 
 func newNodeCase(c *Ctx, mode string, E uint64, nVal, local int, pend uint64) *nodeCase {
 	env := newNodeEnv(E, nVal, local, pend)
@@ -117,6 +132,10 @@ func (nc *nodeCase) dump(res string) string {
 	parts := []string{"res=" + res, n.dumpStored(nc.nm), n.dumpChain(nc.nm, nc.maxH), n.dumpOrphans(nc.nm), n.dumpCasper(nc.nm)}
 	if nc.ledgerMode() {
 		parts = append(parts, n.dumpUtxo(nc.ln), n.dumpContracts(nc.ln))
+		if n.contractMismatch != "" {
+			nc.c.Fail("C10:contract-table:store-answer-differs-from-row", fmt.Sprintf("%s (best block %s)", n.contractMismatch, nc.nm.name(n.chain.BestBlockHeader().Hash())))
+			n.contractMismatch = ""
+		}
 	}
 	if nc.mode == "pool" && nc.pw != nil {
 		parts = append(parts, nc.dumpPool("the last event"))
@@ -140,6 +159,9 @@ func (nc *nodeCase) defBlock(parent string, slotSkip uint64, arb byte, txInfos [
 		panic(fmt.Sprintf("ref node has no checkpoint for %s: %v", parent, err))
 	}
 	spec := blockSpec{parent: p, slotSkip: slotSkip, arb: arb, txs: txs, rewards: ck.Rewards, ckptTs: ck.Timestamp, nVal: len(nc.env.keys)}
+	if nc.altCoinbase {
+		spec.cbProg = altCoinbaseProg
+	}
 	b := nc.env.buildBlock(spec)
 	if _, dup := nc.nm.byHash[b.Hash()]; dup {
 		nc.env.useLocalKey()
@@ -295,7 +317,19 @@ func (nc *nodeCase) restart() {
 }
 
 func (nc *nodeCase) vote(order int, src, tgt string, valid bool) {
+	rl := relabelledVotes
+	if th := nc.nm.blocks[tgt].Hash(); valid {
+		if _, err := nc.sut.store.GetBlockHeader(&th); err != nil {
+			if nc.cachedTargets == nil {
+				nc.cachedTargets = map[string]bool{}
+			}
+			nc.cachedTargets[tgt] = true
+		}
+	}
 	msg := nc.env.voteMsg(order, nc.nm.blocks[src].Hash(), nc.nm.blocks[tgt].Hash(), valid)
+	if relabelledVotes > rl {
+		nc.c.Count("invalid-vote:relabelled-signature-of-another-validator")
+	}
 	if valid && order < len(nc.env.keys) {
 		nc.noteValid(src, tgt, order)
 	}
@@ -349,6 +383,19 @@ func (nc *nodeCase) ancestors(name string) []string {
 
 func (nc *nodeCase) oracleAfterEvent(op string, r procResult) {
 	n := nc.sut
+	if nc.implOnly {
+		// the background replay of parked votes may still be running after the epoch
+		// notification was taken from the queue: wait until the finality state stops changing
+		prev := ""
+		for i := 0; i < 40; i++ {
+			time.Sleep(25 * time.Millisecond)
+			cur := n.dumpCasper(nc.nm)
+			if cur == prev {
+				break
+			}
+			prev = cur
+		}
+	}
 	if nc.mode == "rules" && r.panic == "" {
 		nc.oracleRules(op)
 	}
@@ -416,7 +463,14 @@ func (nc *nodeCase) oracleAfterEvent(op string, r procResult) {
 			answered := strings.HasPrefix(op, "deliver") || strings.HasPrefix(op, "vote")
 			okAnswer := r.err == nil && r.panic == "" && nc.lastVoteRes != "err"
 			if answered && okAnswer && nc.synced && !isBest && nc.mode != "rules" {
-				nc.c.Fail(sig("C11", "best-not-fork-choice"), fmt.Sprintf("after %s: best block %s is not the fork-choice winner %s", op, bestName, nc.nm.name(want)))
+				what := "best-not-fork-choice"
+				// F39: the background loop that replays a parked (cached) vote never tells the chain
+				// core that the fork choice moved: narrow signature when the last justified checkpoint
+				// is the target of a vote that had to wait for its block
+				if _, jh := cc.LastJustified(); nc.cachedTargets[nc.nm.name(jh)] && strings.HasPrefix(op, "deliver") {
+					what += ":after-cached-vote-replay"
+				}
+				nc.c.Fail(sig("C11", what), fmt.Sprintf("after %s: best block %s is not the fork-choice winner %s", op, bestName, nc.nm.name(want)))
 			}
 			// C12 "connected as if the blocks had arrived in order": a delivery that connected
 			// waiting orphans (more than one block became stored) must leave the chain where an
@@ -860,15 +914,152 @@ func genCaseNestedAfterTwoLinks(c *Ctx, mode string) {
 	c.Distinct(fmt.Sprintf("nested-two-links-%d-%d", c.Seed, c.nOps))
 }
 
+// genCaseSkipJustify: a checkpoint is justified by a link that SKIPS its (already justified)
+// parent checkpoint: genesis -> C3 reaches its majority only after genesis -> C2 did (C1 is
+// skipped by both, so genesis stays justified and can be a source twice). C3 is justified from
+// genesis, its direct parent C2 is justified, yet nothing is finalized: a checkpoint is
+// finalized only by a link from it to its direct child. Then C3 -> C4 finalizes C3.
+func genCaseSkipJustify(c *Ctx, mode string) {
+	rng := c.Rng
+	E := uint64(2 + rng.Intn(2))
+	nc := newNodeCase(c, mode, E, 4, -1, 2)
+	defer nc.close()
+	tip := "b0"
+	var blocks []string
+	for i := 0; i < int(4*E); i++ {
+		tip = nc.defBlock(tip, 0, 0, nil)
+		if tip == "" {
+			return
+		}
+		blocks = append(blocks, tip)
+		nc.deliver(tip)
+	}
+	c2, c3, c4 := blocks[2*E-1], blocks[3*E-1], blocks[4*E-1]
+	p := rng.Perm(4)
+	nc.vote(p[0], "b0", c3, true)
+	nc.vote(p[1], "b0", c3, true)
+	for _, v := range rng.Perm(3) {
+		nc.vote(p[v], "b0", c2, true) // C2 justified from genesis (not its direct parent)
+	}
+	nc.vote(p[2+rng.Intn(2)], "b0", c3, true) // C3 justified from genesis, over its justified parent C2
+	if rng.Intn(2) == 0 {
+		nc.restart()
+	}
+	for _, v := range rng.Perm(3) {
+		nc.vote(p[1+v], c3, c4, true) // C4 justified, C3 finalized
+	}
+	c.Count("skip-justify-cases")
+	c.Distinct(fmt.Sprintf("skip-justify-%d-%d", c.Seed, c.nOps))
+}
+
+// genCaseCachedVoteFlipsForkChoice: the only validator's vote genesis -> B_E arrives BEFORE its
+// target block and waits in the verification cache; branch A grows past an epoch, then branch
+// B is delivered: the first block of B's next epoch makes the background loop replay the
+// cached vote, which justifies B_E on a branch that is not the main chain. Whatever the node
+// does with the moved fork choice, block processing must go on: more blocks on both branches
+// follow.
+func genCaseCachedVoteFlipsForkChoice(c *Ctx, mode string) {
+	rng := c.Rng
+	E := uint64(2 + rng.Intn(3))
+	nc := newNodeCase(c, mode, E, 1, -1, 2)
+	defer nc.close()
+	nc.implOnly = true
+	var as, bs []string
+	tipA, tipB := "b0", "b0"
+	for i := 0; i < int(E)+2+rng.Intn(2); i++ {
+		if tipA = nc.defBlock(tipA, 0, 0, nil); tipA == "" {
+			return
+		}
+		as = append(as, tipA)
+	}
+	for i := 0; i < int(E)+1; i++ {
+		if tipB = nc.defBlock(tipB, 1, 1, nil); tipB == "" {
+			return
+		}
+		bs = append(bs, tipB)
+	}
+	nc.vote(0, "b0", bs[E-1], true) // target unknown: cached
+	for _, a := range as {
+		nc.deliver(a)
+	}
+	for _, b := range bs {
+		nc.deliver(b)
+	}
+	for i := 0; i < 2 && !nc.dead; i++ {
+		if nb := nc.defBlock(tipB, 0, 1, nil); nb != "" {
+			nc.deliver(nb)
+			tipB = nb
+		}
+		if na := nc.defBlock(tipA, 0, 0, nil); na != "" {
+			nc.deliver(na)
+			tipA = na
+		}
+	}
+	c.Count("cached-vote-flips-fork-choice-cases")
+	c.Distinct(fmt.Sprintf("cached-flip-%d-%d", c.Seed, c.nOps))
+}
+
+// genCaseRelabelledVotes: ONE validator signs the links genesis -> C1 and C1 -> C2; every other
+// validator's vote for the same links is a relabelled copy of that genuine signature (its
+// public key, the first validator's signature bytes), delivered as a message or carried by a
+// re-delivered copy of the target block. One genuine vote must stay one vote.
+func genCaseRelabelledVotes(c *Ctx, mode string) {
+	rng := c.Rng
+	E := uint64(2 + rng.Intn(2))
+	nc := newNodeCase(c, mode, E, 4, -1, 2)
+	defer nc.close()
+	nc.env.forceRelabel = true
+	tip := "b0"
+	var blocks []string
+	for i := 0; i < int(2*E)+1; i++ {
+		tip = nc.defBlock(tip, 0, 0, nil)
+		if tip == "" {
+			return
+		}
+		blocks = append(blocks, tip)
+		nc.deliver(tip)
+	}
+	c1, c2 := blocks[E-1], blocks[2*E-1]
+	p := rng.Perm(4)
+	for _, link := range [][2]string{{"b0", c1}, {c1, c2}} {
+		nc.vote(p[0], link[0], link[1], true)
+		for _, v := range rng.Perm(3) {
+			if rng.Intn(3) == 0 {
+				srcH := uint64(0)
+				if link[0] != "b0" {
+					srcH = nc.nm.blocks[link[0]].Height
+				}
+				nc.deliver(link[1], supSpec{src: link[0], srcHeight: srcH, order: p[1+v], valid: false})
+			} else {
+				nc.vote(p[1+v], link[0], link[1], false)
+			}
+		}
+		if rng.Intn(3) == 0 {
+			nc.restart()
+		}
+	}
+	c.Count("relabelled-votes-cases")
+	c.Distinct(fmt.Sprintf("relabelled-%d-%d", c.Seed, c.nOps))
+}
+
 func genCaseTree(c *Ctx, mode string) {
 	rng := c.Rng
 	if mode == "tree" {
 		switch rng.Intn(20) {
+		case 4:
+			genCaseRelabelledVotes(c, mode)
+			return
+		case 5:
+			genCaseCachedVoteFlipsForkChoice(c, mode)
+			return
 		case 0, 1:
 			genCasePruneThenEquivocate(c, mode)
 			return
 		case 2:
 			genCaseNestedAfterTwoLinks(c, mode)
+			return
+		case 3:
+			genCaseSkipJustify(c, mode)
 			return
 		}
 	}
